@@ -104,7 +104,12 @@ func Variants(samIn, refIn io.Reader, refFromFile bool, annoIn io.Reader, annoSu
 
 	go groupSamRecords(samIn, cSH, cSR, cReadDone, cErr)
 
-	_ = <-cSH
+	// the reader reports a stream that has no parsable header (e.g. an empty one) on the error channel
+	select {
+	case <-cSH:
+	case err := <-cErr:
+		return err
+	}
 
 	var wgAlign sync.WaitGroup
 	wgAlign.Add(threads)
